@@ -263,7 +263,9 @@ def structured_sys_table(rng, ar):
 
 # ---- Gallina literals ------------------------------------------------------
 def lit1(tab):
-    return '[' + ';'.join('true' if b else 'false' for b in tab) + ']'
+    """list of bool as `bitsN len n` (see L4/Tables.v)."""
+    n = sum(1 << i for i, b in enumerate(tab) if b)
+    return f'(bitsN {len(tab)} {n}%N)'
 
 
 def lit2(tab):
@@ -271,6 +273,9 @@ def lit2(tab):
 
 
 def litn(x):
+    """nested lists of truth tables; innermost lists of bool -> bitsN."""
     if isinstance(x, bool):
         return 'true' if x else 'false'
+    if x and all(isinstance(y, bool) for y in x):
+        return lit1(x)
     return '[' + ';'.join(litn(y) for y in x) + ']'
